@@ -126,6 +126,9 @@ def ob_totp(chk, ir):
     st, state, w, r = H.mkstate()
     user = SV('alice'); t1 = z3.BitVec('t1', lib.TW); t2 = z3.BitVec('t2', lib.TW)
     st.pc += [t1 >= lib.T(1577836800 * SEC), t1 <= t2, t2 <= lib.T(3976214400 * SEC)]
+    # lemma (floor division is monotone): t1 <= t2 gives unix(t1) <= unix(t2) and step(t1) <= step(t2); stated so that the solver need not
+    # derive it through the constant multiplications that tie the seconds / 30 s steps to the nanosecond instants
+    st.pc += [z3.ULE(totpk.clock_vars(1)[0], totpk.clock_vars(2)[0]), z3.ULE(totpk.clock_vars(1)[1], totpk.clock_vars(2)[1])]
     # arbitrary pre-state record for the user (instants not after t1; failCount arbitrary)
     fc0 = z3.BitVec('pre.failCount', 32); lc0 = z3.BitVec('pre.lastCheckTime', lib.TW); lo0 = z3.BitVec('pre.lockoutExpirationTime', lib.TW); lf0 = z3.BitVec('pre.lastFailTime', lib.TW)
     st.pc += [lc0 <= t1, lf0 <= t1, lo0 <= t1 + lib.T(10**6 * SEC), lc0 >= lib.T(lib.ZERO_NS), lf0 >= lib.T(lib.ZERO_NS), lo0 >= lib.T(lib.ZERO_NS), z3.ULE(fc0, 1000)]
